@@ -250,6 +250,9 @@ func (cs *caseState) judgeStalled(v *verdict) {
 				continue
 			}
 			v.healthyBad++
+			if c.plan.Twin > 0 {
+				v.healthyBadTwin++
+			}
 			if len(v.stallCand) < 4 {
 				v.stallCand = append(v.stallCand, fmt.Sprintf("[%s] healthy peer answered attempt %d at once; the requester's timer fired %d process heartbeats later (no late heartbeat during the call) and the reply had not been delivered; handler ran %d times, result err=%v (overlapped a black-hole call of its node: %v): %s",
 					sigStalledLost, a.idx, a.timeoutBeat-a.answerBeat, c.handlerN, c.resp.Error(), c.sawHole, c.describe()))
